@@ -181,9 +181,11 @@ def pton6 (s : List UInt8) : Option (Vector UInt8 16) :=
     else go6 s ⟨[], none, 0, 0, s⟩
 
 /-- `getaddrinfo (s, NULL, {AF_UNSPEC, SOCK_STREAM, AI_NUMERICHOST}, …)` on strings with ':' and without '%'
-    (see the head of the file); `none` elsewhere -/
+    (see the head of the file).  `inet_pton6` accepts no '%', so on a string with '%' this function answers `none`
+    where glibc goes on to look at the scope: outside the domain, nothing is claimed there (and the differential
+    compares on the domain only). -/
 def gaiNumeric (s : List UInt8) : Option (Nat × Buf) :=
-  if s.contains 58 && !s.contains 37 then
+  if s.contains 58 then
     match pton6 s with
     | some a => some (10, Spec.encode (.v6 a 0 0 0))
     | none => none
